@@ -422,14 +422,11 @@ func ruleCCScaling(c *Ctx, dv *dev, paths []*Path) {
 				continue // the explicit zero of the side being left
 			}
 			// the single float leaf of the value term
-			var leaf *Term
-			ev.B2.Walk(func(t *Term) bool {
-				if t.Op == "phi" && leaf == nil {
-					leaf = t
-				}
-				return true
-			})
+			leaf := shapedLeaf(dv, p, ev.B2)
 			if leaf == nil {
+				if _, closed := evalNum(ev.B2, map[string]float64{}); closed {
+					continue // a position inside the deadzone, known to be the rest value on this path (R6.2)
+				}
 				bad = "value byte is not a function of the shaped axis value: " + ev.B2.String()
 				continue
 			}
@@ -501,6 +498,54 @@ func ruleCCScaling(c *Ctx, dv *dev, paths []*Path) {
 	}
 }
 
+// shapedLeaf: the shaped axis position inside t. Where the deadzone arms are merged by an SSA phi that is the (opaque) phi
+// term; where the position travels in a struct or through helpers the arms are separate paths and the position is the
+// explicit term the path records as the axis' last position.
+func shapedLeaf(dv *dev, p *Path, t *Term) *Term {
+	var leaf *Term
+	t.Walk(func(x *Term) bool {
+		if x.Op == "phi" && leaf == nil {
+			leaf = x
+		}
+		return true
+	})
+	if leaf != nil {
+		return leaf
+	}
+	for _, e := range p.Effects {
+		if e.Kind == "mapset" && e.Args[0].Op == "lookup" && dv.isFieldLoad(e.Args[0].Args[0], "lastAnalogValue") {
+			s := e.Args[2]
+			if _, isK := s.IsConst(); isK {
+				continue
+			}
+			key := s.String()
+			// the position as the transfer stage sees it: after the flip (-v on a signed range, 1-v on an unsigned one), which
+			// is a separate path condition here and not hidden in the phi
+			var flipped *Term
+			t.Walk(func(x *Term) bool {
+				if x.Op == "unop" && x.Aux == "-" && x.Args[0].String() == key {
+					flipped = x
+				}
+				if x.Op == "binop" && x.Aux == "-" && len(x.Args) == 2 && x.Args[1].String() == key {
+					if k, ok := x.Args[0].IsConst(); ok {
+						if f, _ := constant.Float64Val(constant.ToFloat(k)); f == 1 {
+							flipped = x
+						}
+					}
+				}
+				if leaf == nil && x.String() == key {
+					leaf = x
+				}
+				return true
+			})
+			if flipped != nil {
+				leaf = flipped
+			}
+		}
+	}
+	return leaf
+}
+
 func ifs(b bool, s string) string {
 	if b {
 		return s
@@ -524,14 +569,11 @@ func rulePitchBendArgument(c *Ctx, dv *dev, paths []*Path) {
 				continue
 			}
 			arg := e.Args[1]
-			var leaf *Term
-			arg.Walk(func(t *Term) bool {
-				if t.Op == "phi" && leaf == nil {
-					leaf = t
-				}
-				return true
-			})
+			leaf := shapedLeaf(dv, p, arg)
 			if leaf == nil {
+				if _, closed := evalNum(arg, map[string]float64{}); closed {
+					continue // a position inside the deadzone, known to be the rest value on this path (R6.2)
+				}
 				bad = "pitch-bend argument is not a function of the shaped axis value"
 				continue
 			}
@@ -725,6 +767,40 @@ func ruleRestValueConstant(c *Ctx, dv *dev) {
 			}
 		}
 	}
+	// the same where the position is a field of a small struct (`p.value = 0` under a comparison with the deadzone)
+	for _, b := range hostBlocks {
+		for _, in := range b.Instrs {
+			st, ok := in.(*ssa.Store)
+			if !ok {
+				continue
+			}
+			k, isK := st.Val.(*ssa.Const)
+			if !isK || k.Value == nil {
+				continue
+			}
+			if bt, isB := k.Type().Underlying().(*types.Basic); !isB || bt.Info()&types.IsFloat == 0 {
+				continue
+			}
+			if constant.Sign(k.Value) != 0 {
+				continue
+			}
+			if _, isField := st.Addr.(*ssa.FieldAddr); !isField {
+				continue
+			}
+			vw := views[b.Parent()]
+			if b.Parent() != fn {
+				vw = NewFnViewBound(c.P, b.Parent(), fn, 0)
+			}
+			for _, a := range vw.GuardsAt(b) {
+				s := a.Cond.String()
+				if a.Cond.Op == "binop" && (a.Cond.Aux == "<" || a.Cond.Aux == ">") && strings.Contains(strings.ToLower(s), "deadzone") {
+					n++
+					c.OK("R6.2", fmt.Sprintf("device.handleABSEvent/in-deadzone-rest-value#%d", n), c.P.Pos(st.Pos()), "inside the deadzone the position is assigned the constant 0")
+					break
+				}
+			}
+		}
+	}
 	if n < 2 {
 		c.Bad("R6.2", "device.handleABSEvent/in-deadzone-rest-value", c.P.Pos(fn.Pos()), fmt.Sprintf("found %d in-deadzone branches assigning the literal 0 (expected one per sign): positions inside the deadzone may transmit a computed value instead of exactly the rest value", n))
 	}
@@ -871,7 +947,9 @@ func ruleFlipAfterDeadzone(c *Ctx, dv *dev, rule string) {
 		return false
 	}
 	n, bad := 0, ""
-	for _, host := range hosts {
+	flipRegions := map[*ssa.Function]map[*ssa.BasicBlock]bool{}
+	var fnDependsOnFlip func(ssa.Value) bool
+	for _, host := range hosts { // (the handler comes first)
 		// blocks controlled by a FlipAxis test
 		region := map[*ssa.BasicBlock]bool{}
 		for _, b := range host.Blocks {
@@ -891,6 +969,9 @@ func ruleFlipAfterDeadzone(c *Ctx, dv *dev, rule string) {
 			}
 		}
 		vw := NewFnView(c.P, host)
+		if host != fn {
+			vw = NewFnViewBound(c.P, host, fn, 0) // a helper's `deadzone` parameter is what the handler passes
+		}
 		mentionsDeadzone := func(v ssa.Value) bool {
 			s := vw.Term(v).String()
 			return strings.Contains(s, "Deadzones[") || strings.Contains(s, "DefaultDeadzone[") || strings.Contains(s, "call:") && strings.Contains(strings.ToLower(s), "deadzone")
@@ -922,7 +1003,9 @@ func ruleFlipAfterDeadzone(c *Ctx, dv *dev, rule string) {
 				case *ssa.UnOp:
 					if a, isAlloc := x.X.(*ssa.Alloc); isAlloc {
 						for _, r := range *a.Referrers() {
-							if st, ok := r.(*ssa.Store); ok && st.Addr == a && (region[st.Block()] || rec(st.Val, depth+1)) {
+							// (an assignment that cannot be executed before this read does not count: `pos = pos.flipped()` after
+							// `pos = pos.withDeadzone(dz)` in straight-line code)
+							if st, ok := r.(*ssa.Store); ok && st.Addr == a && mayPrecede(st, x) && (region[st.Block()] || rec(st.Val, depth+1)) {
 								return true
 							}
 						}
@@ -941,6 +1024,10 @@ func ruleFlipAfterDeadzone(c *Ctx, dv *dev, rule string) {
 				return false
 			}
 			return rec(v, 0)
+		}
+		flipRegions[host] = region
+		if host == fn {
+			fnDependsOnFlip = dependsOnFlip
 		}
 		for _, b := range host.Blocks {
 			for _, in := range b.Instrs {
@@ -963,7 +1050,26 @@ func ruleFlipAfterDeadzone(c *Ctx, dv *dev, rule string) {
 					continue
 				}
 				n++
-				if dependsOnFlip(other) {
+				flippedBefore := dependsOnFlip(other)
+				if host != fn {
+					// a comparison inside a shaping helper: it sees a flipped position when the handler calls the helper inside
+					// the flip branch or hands it a position that was flipped before
+					if sites, all := staticCallSites(c.P, host); all {
+						for _, cs := range sites {
+							if hostRegion := flipRegions[cs.Parent()]; hostRegion != nil && hostRegion[cs.Block()] {
+								flippedBefore = true
+							}
+							if cs.Parent() == fn {
+								for _, arg := range cs.Common().Args {
+									if fnDependsOnFlip != nil && fnDependsOnFlip(arg) {
+										flippedBefore = true
+									}
+								}
+							}
+						}
+					}
+				}
+				if flippedBefore {
 					bad = fmt.Sprintf("the position compared with the deadzone at %s has already been flipped (it is computed inside a branch controlled by FlipAxis): for an unsigned axis the deadzone then sits at the wrong physical end and the end stop no longer maps to the end of the range", c.P.Pos(bo.Pos()))
 				}
 			}
@@ -974,6 +1080,21 @@ func ruleFlipAfterDeadzone(c *Ctx, dv *dev, rule string) {
 		return
 	}
 	c.Check(bad == "", rule, "device.handleABSEvent/deadzone-before-flip", pos, fmt.Sprintf("%d comparison(s) with the deadzone, none on a flipped position", n), bad)
+}
+
+// mayPrecede: st can be executed before ld (earlier in the same block, or in a block from which ld's block is reachable).
+func mayPrecede(st, ld ssa.Instruction) bool {
+	if st.Block() == ld.Block() {
+		for _, in := range st.Block().Instrs {
+			if in == st {
+				return true
+			}
+			if in == ld {
+				break
+			}
+		}
+	}
+	return reachesBlock(st.Block(), ld.Block())
 }
 
 // ruleRescaleExact: R6.10 "the physical end stops map exactly to the ends of the range" through the deadzone rescale:
@@ -1228,6 +1349,12 @@ func ruleShiftOnlyUnsigned(c *Ctx, dv *dev, rule string) {
 						}
 					}
 				}
+				if !ok && (loadsField(mul.X) || loadsField(mul.Y)) {
+					// the position (and its range flag) travels in a small struct: no def-use chain from the flag to the range,
+					// but the path engine keeps such memory apart, so the shift and the test of the range are explicit on its paths
+					pfacts := pathShiftFlipFacts(c, dv)
+					ok = pfacts.nShift > 0 && pfacts.badShift == ""
+				}
 				if !ok && bad == "" {
 					bad = fmt.Sprintf("the centre shift 2v-1 at %s is applied without the axis being known to be unsigned (minimum >= 0): on a signed axis (position already in [-1,1]) it yields [-3,1] - with deadzone_at_center on a stick the low end stop leaves the MIDI range and the transfer function is not monotonic", c.P.Pos(sub.Pos()))
 				}
@@ -1359,6 +1486,11 @@ func ruleShiftOnlyUnsigned(c *Ctx, dv *dev, rule string) {
 				noShiftOK = true
 			}
 		}
+		if !(unsignedOK && noShiftOK) && loadsField(fl.Y) {
+			if pfacts := pathShiftFlipFacts(c, dv); pfacts.nFlip > 0 && pfacts.badFlip == "" {
+				unsignedOK, noShiftOK = true, true
+			}
+		}
 		if !(unsignedOK && noShiftOK) && flipBad == "" {
 			flipBad = fmt.Sprintf("the unsigned flip 1 - v at %s is not guarded by a condition that excludes the centre shift (unsigned range known: %v, centre shift excluded: %v): an unsigned axis with deadzone_at_center works in [-1,1] after the shift, 1 - v then yields [0,2] - controller bytes above 127, wrapped pitch bend, misplaced end stops", c.P.Pos(fl.Pos()), unsignedOK, noShiftOK)
 		}
@@ -1366,6 +1498,101 @@ func ruleShiftOnlyUnsigned(c *Ctx, dv *dev, rule string) {
 	if len(flips) > 0 {
 		c.Check(flipBad == "", "R6.13", "device.handleABSEvent/unsigned-flip-only-on-an-unshifted-unsigned-position", pos, fmt.Sprintf("%d flip site(s) of the form 1 - v checked", len(flips)), flipBad)
 	}
+}
+
+func loadsField(v ssa.Value) bool {
+	ld, ok := v.(*ssa.UnOp)
+	if !ok || ld.Op != token.MUL {
+		return false
+	}
+	_, isField := ld.X.(*ssa.FieldAddr)
+	return isField
+}
+
+type shiftFlipFacts struct {
+	nShift, nFlip     int
+	badShift, badFlip string
+}
+
+// pathShiftFlipFacts: decided on the paths of the handler, for positions carried in memory (which the path engine never
+// merges): every occurrence of the centre shift 2N-1 of the normalised position N lies on a path that has found the
+// range unsigned (Minimum >= 0), and every unsigned flip 1-P mirrors a P that contains no centre shift, on such a path.
+func pathShiftFlipFacts(c *Ctx, dv *dev) shiftFlipFacts {
+	var f shiftFlipFacts
+	paths, err := absPaths(c, dv)
+	if err != nil {
+		f.badShift, f.badFlip = fmt.Sprint(err), fmt.Sprint(err)
+		return f
+	}
+	isK := func(t *Term, want float64) bool {
+		k, ok := t.IsConst()
+		if !ok || (k.Kind() != constant.Float && k.Kind() != constant.Int) {
+			return false
+		}
+		v, _ := constant.Float64Val(constant.ToFloat(k))
+		return v == want
+	}
+	isPos := func(t *Term) bool { return strings.Contains(t.String(), "AbsInfos[") }
+	isShift := func(x *Term) bool {
+		if x.Op != "binop" || x.Aux != "-" || len(x.Args) != 2 || !isK(x.Args[1], 1) {
+			return false
+		}
+		m := x.Args[0]
+		if m.Op != "binop" || m.Aux != "*" || len(m.Args) != 2 {
+			return false
+		}
+		return isK(m.Args[1], 2) && isPos(m.Args[0]) || isK(m.Args[0], 2) && isPos(m.Args[1])
+	}
+	for _, p := range paths {
+		unsignedKnown := false
+		for _, a := range p.Atoms {
+			op, x, y, ok := normAtom(a)
+			if !ok {
+				continue
+			}
+			if _, xc := x.IsConst(); xc {
+				x, y, op = y, x, flipOp(op)
+			}
+			if isK(y, 0) && strings.HasSuffix(x.StripConv().String(), ".Minimum") && op == ">=" {
+				unsignedKnown = true
+			}
+		}
+		var terms []*Term
+		for _, a := range p.Atoms {
+			terms = append(terms, a.Cond)
+		}
+		for _, e := range p.Effects {
+			terms = append(terms, e.Args...)
+		}
+		for _, t := range terms {
+			if t == nil {
+				continue
+			}
+			t.Walk(func(x *Term) bool {
+				if isShift(x) {
+					f.nShift++
+					if !unsignedKnown && f.badShift == "" {
+						f.badShift = "a path applies the centre shift without having found the range unsigned: " + truncate(x.String(), 120)
+					}
+				}
+				if x.Op == "binop" && x.Aux == "-" && len(x.Args) == 2 && isK(x.Args[0], 1) && isPos(x.Args[1]) {
+					f.nFlip++
+					shifted := false
+					x.Args[1].Walk(func(y *Term) bool {
+						if isShift(y) {
+							shifted = true
+						}
+						return true
+					})
+					if (!unsignedKnown || shifted) && f.badFlip == "" {
+						f.badFlip = "a path mirrors a position with 1 - v that is not known to be in [0,1]: " + truncate(x.String(), 120)
+					}
+				}
+				return true
+			})
+		}
+	}
+	return f
 }
 
 // rangeLeaves: the map lookups that can supply the struct whose field the divisor v reads (through math.Abs, conversions,
